@@ -19,6 +19,8 @@ Queries == {
   "chords.triads('C')", "chords.triads('a')", "chords.triads('G')", "chords.sevenths('G')", "chords.sevenths('C')", "chords.sevenths('e')",
   "chords.tonic('C')", "chords.dominant7('C')", "chords.V7('F')", "chords.ii('G')", "chords.vii7('a')", "chords.subdominant('e')",
   "chords.triad('E', 'C')", "chords.seventh('B', 'G')",
+  \* questions that are refused (a start note that is no note name, though it begins with a note letter): refused in every history
+  "intervals.second('C-4', 'C')", "chords.triad('G7', 'C')", "intervals.third('Em', 'C')", "chords.seventh('Bflat', 'F')", "intervals.fifth('E', 'Q')",
   "chords.from_shorthand('Am7')", "chords.from_shorthand('C|G7')", "chords.from_shorthand(['C', 'Dm'])", "chords.determine(['C', 'E', 'G'])",
   "chords.determine(['E', 'G', 'C'], True)", "chords.major_triad('F#')", "chords.invert(['C', 'E', 'G'])",
   "scales.Major('G').ascending()", "scales.Major('C').descending()", "scales.NaturalMinor('E').ascending()",
